@@ -83,7 +83,7 @@ package fsnotify
 
 //@ func (w *watches) removePath(path string) (wds []uint32, err error)
 //@   mode modeA: !enableRecurse
-//@   mode modeB: enableRecurse                    [C19]
+//@   mode modeB: enableRecurse                    [C19 C12]
 //@   requires held(shared.mu) && w.wd != nil && w.path != nil && TablesInv(w)
 //@   let isRec = enableRecurse && filepath.Base(filepath.Clean(path)) == "..."
 //@   let p = ite(isRec, filepath.Dir(filepath.Clean(path)), filepath.Clean(path))
@@ -171,6 +171,7 @@ package fsnotify
 //@   requires !token(sawOpen)
 //@   local with withOpts
 //@   mode modeA: !enableRecurse
+//@   mode modeB: enableRecurse                    [C07 C19]
 //@   requires Wf(w) && nolocks()
 //@   let p = filepath.Clean(path)
 //@   ensures nolocks()                                                                              [C05 C07]
@@ -178,6 +179,7 @@ package fsnotify
 //@   ensures modeA && didLock(shared.mu) && err == nil ==> Watched(w, filepath.Clean(path))         [C04 C01] "a successful Add leaves the file watched: listed under the cleaned argument, or already watched under the name it was first added as"
 //@   atcall inotify.register: arg_flags == requestInotify(with.op, with.noFollow)                   [C01 C15] "the native flags requested are exactly those needed for the requested operations"
 //@   atcall inotify.register: modeA ==> arg_path == p && !arg_recurse                               [C04 C08] "the watch is registered under the cleaned Add argument"
+//@   atcall filepath.WalkDir: modeB ==> held(shared.mu)                                             [C07 C19] "a recursive Add registers its whole tree inside one critical section, so that it is atomic towards Remove and the reader"
 
 // request side of the flag table (C15), transcribed from the Watcher documentation and inotify(7)
 //@ def requestInotify(op Op, noFollow bool) := ite(noFollow, uint32(unix.IN_DONT_FOLLOW), 0) |
@@ -276,6 +278,7 @@ package fsnotify
 //@             forall(k, uint32, has(W1, k) && has(atUnlock(w.watches.wd), k) ==> atUnlock(w.watches.wd[k].path) == atLock(w.watches.wd[k].path))       [C19] "no other notification renames a watch"
 //@   ensures modeB ==> atUnlock(TablesInv(w.watches))                                                 [C19] "the path index follows the watches it indexes (renamed directories are listed, and removable, under their new names)"
 //@   local name string
+//@   atcall inotify.register: modeB ==> arg_path == nm && arg_recurse && arg_flags == atLock(w.watches.wd[uint32(inEvent.Wd)].flags)      [C19] "a directory created inside a recursive tree is registered under its true path, recursively, with the flags of the tree"
 //@   loop 1 "for k, ww := range w.watches.wd"
 //@     invariant held(shared.mu) && Wf(w) && w.watches.wd == atLoop(w.watches.wd) && w.watches.path == atLoop(w.watches.path)
 //@     invariant forall(j, uint32, has(w.watches.wd, j) && has(W1, j) ==> w.watches.wd[j] == W1[j])    [C19] "descriptors listed since the lock was taken still name the same watch objects"
